@@ -289,6 +289,22 @@ func (c *Ctx) c08Reader() {
 			c.sample(map[string]string{"mutated_armor": string(t)})
 		}
 	}
+	// a source that fails ONCE at every offset and then recovers: the reader must report the failure
+	// and stay failed (it must not resume, lose a line silently, or end cleanly)
+	{
+		k1, _ := implArmor([][]byte{c.rng.bytes(130)}, nil)
+		for off := 0; off <= len(k1.acc); off++ {
+			src := newSrc(k1.acc, nil, false, off)
+			src.once = true
+			r := armor.NewReader(src)
+			_, err, sticky := drainReader(r, nil, 48, 4*len(k1.acc)+100)
+			in := map[string]int{"transient_fault_offset": off}
+			c.Oracle("failed-reader-stays-failed", sticky, "armor-not-sticky", in, "after a transient source failure the armor reader returned bytes or another result")
+			c.Oracle("source-failure-never-clean-eof", err != io.EOF, "armor-src-failure-lost", in, "a transient source failure was swallowed: de-armoring ended with a clean EOF")
+			c.note(fmt.Sprintf("rf-once:%d", off), true)
+			c.count("reader-transient-fault")
+		}
+	}
 	// source failing at every offset of a small armor
 	k, _ := implArmor([][]byte{c.rng.bytes(100)}, nil)
 	for off := 0; off <= len(k.acc); off++ {
